@@ -7,7 +7,7 @@ CONC_ALL = ["basic", "mixed", "guards", "nofast", "helping", "cas", "multi", "ch
 PROPS = {
     "C01": dict(props="Props/C01.v", runner="conc",
                 families=["mixed", "guards", "nofast", "helping", "multi", "churn"],
-                scenarios=["s01", "s02", "s03", "s04", "s05", "s06", "s07", "s10", "s13", "s14"]),
+                scenarios=["s01", "s02", "s03", "s04", "s05", "s06", "s07", "s10", "s13", "s14"], deep=["s03"]),
     "C02": dict(props="Props/C02.v", runner="conc",
                 families=["basic", "mixed", "guards", "helping", "cas", "multi"],
                 scenarios=["s01", "s02", "s03", "s04", "s07", "s08", "s09", "s11", "s13", "s14", "s16"]),
@@ -37,9 +37,9 @@ PROPS = {
                 families=["wrap", "basic", "helping"], scenarios=["s15"]),
     "C14": dict(props="Props/C14.v", runner="seq"),
     "C15": dict(props="Props/C15.v", runner="refcnt"),
-    "C16": dict(props="Props/C16.v", runner="conc", families=["cache"], scenarios=["s12"]),
+    "C16": dict(props="Props/C16.v", runner="conc", families=["cache"], scenarios=["s12"], deep=["s12"]),
     "C17": dict(props="Props/C17.v", runner="access"),
-    "C18": dict(props="Props/C18.v", runner="conc", families=["cas"], scenarios=["s09"]),
+    "C18": dict(props="Props/C18.v", runner="conc", families=["panic"], scenarios=["s18", "s09"]),
     "C19": dict(props="Props/C19.v", runner="marker"),
     "C20": dict(props="Props/C20.v", runner="serde"),
 }
